@@ -1,7 +1,4 @@
 import QuriVerif.Driver.C01
-import QuriVerif.Driver.C12
-import QuriVerif.Driver.C06
-import QuriVerif.Driver.C07
 namespace QV.Driver
 
 def dispatch (line : String) : String :=
@@ -15,13 +12,6 @@ def dispatch (line : String) : String :=
     | "c01rotpipeline" => c01rotpipeline args
     | "c01approx" => c01approx args
     | "gatemat" => gatemat args
-    | "c12fold" => c12fold args
-    | "c06conj" => c06conj args
-    | "c07group" => c07group args
-    | "c07bsv" => c07bsv args
-    | "c07commute" => c07commute args
-    | "c07meas" => c07meas args
-    | "c07rec" => c07rec args
     | _ => "bad-request"
   | [] => "bad-request"
 
